@@ -119,8 +119,26 @@ func (r *renderer) render(v any) string {
 		return "F"
 	case int64:
 		return "I" + strconv.FormatInt(x, 10)
+	case int:
+		return "I" + strconv.FormatInt(int64(x), 10)
+	case int8:
+		return "I" + strconv.FormatInt(int64(x), 10)
+	case int16:
+		return "I" + strconv.FormatInt(int64(x), 10)
+	case int32:
+		return "I" + strconv.FormatInt(int64(x), 10)
 	case uint64:
 		return "U" + strconv.FormatUint(x, 10)
+	case uint:
+		return "U" + strconv.FormatUint(uint64(x), 10)
+	case uint8:
+		return "U" + strconv.FormatUint(uint64(x), 10)
+	case uint16:
+		return "U" + strconv.FormatUint(uint64(x), 10)
+	case uint32:
+		return "U" + strconv.FormatUint(uint64(x), 10)
+	case float32:
+		return "D" + f64hex(float64(x))
 	case *big.Int:
 		return "L" + x.String()
 	case float64:
